@@ -33,6 +33,13 @@ inductive Diag where
   | outOfFuel        -- only in the include machine: the include graph did not bottom out
   deriving DecidableEq, Repr
 
+/-- decidable equality of outcomes, so that concrete runs can be compared by `decide` -/
+instance instDecidableEqExcept {ε α : Type} [DecidableEq ε] [DecidableEq α] : DecidableEq (Except ε α)
+  | .ok a, .ok b => if h : a = b then isTrue (by rw [h]) else isFalse (by intro h'; cases h'; exact h rfl)
+  | .error a, .error b => if h : a = b then isTrue (by rw [h]) else isFalse (by intro h'; cases h'; exact h rfl)
+  | .ok _, .error _ => isFalse (by intro h; cases h)
+  | .error _, .ok _ => isFalse (by intro h; cases h)
+
 -- ------------------------------------------------------------------ macro table (definedness + body)
 
 /-- the macro table as far as conditional inclusion can observe it: name ↦ body, last write wins
